@@ -17,6 +17,8 @@ pub mod common {
     pub mod net;
     #[path = "/verif/harness/src/common/refs.rs"]
     pub mod refs;
+    #[path = "/verif/harness/src/common/ws.rs"]
+    pub mod ws;
 }
 
 pub mod props {
@@ -24,10 +26,15 @@ pub mod props {
     pub mod c01;
     #[path = "/verif/harness/src/props/c02.rs"]
     pub mod c02;
+    #[path = "/verif/harness/src/props/c03.rs"]
+    pub mod c03;
     #[path = "/verif/harness/src/props/c04.rs"]
     pub mod c04;
+    #[path = "/verif/harness/src/props/c06.rs"]
+    pub mod c06;
     #[path = "/verif/harness/src/props/c20.rs"]
     pub mod c20;
+    pub use crate::ttargets as targets;
 }
 
 mod areader;
@@ -36,6 +43,7 @@ mod t02;
 mod t04;
 mod t20;
 mod tserver;
+pub mod ttargets;
 
 use engine::{Ctx, Tier};
 
@@ -47,6 +55,10 @@ fn main() {
     if args.len() < 3 {
         eprintln!("usage: hvt <ID> <quick|thorough> | hvt <ID> --replay <file>");
         std::process::exit(2);
+    }
+    if args[1] == "worker" {
+        // isolated worker process for C03 (tokio request parser)
+        std::process::exit(engine::worker::worker_loop(ttargets::parser_target));
     }
     let id = args[1].to_uppercase();
     let seed: u64 = std::env::var("VERIF_SEED").ok().and_then(|s| s.trim().parse::<u64>().ok()).unwrap_or(20260928);
@@ -66,7 +78,9 @@ fn main() {
         let fails = match id.as_str() {
             "C01" => t01::replay(&ctx, &kind, &v["case"]),
             "C02" => t02::replay(&ctx, &kind, &v["case"]),
+            "C03" => props::c03::replay(&ctx, &kind, &v["case"]),
             "C04" => t04::replay(&ctx, &kind, &v["case"]),
+            "C06" => props::c06::replay(&ctx, &kind, &v["case"]),
             "C20" => t20::replay(&ctx, &kind, &v["case"]),
             _ => vec![engine::Fail::new("harness", "no tokio replay for this property")],
         };
@@ -97,7 +111,13 @@ fn main() {
     match id.as_str() {
         "C01" => t01::run(&ctx),
         "C02" => t02::run(&ctx),
+        "C03" => {
+            ctx.rule("tokio build: the HTTP request inputs of the threaded check (seed prefixes, structural mutants incl. huge / overflowing Content-Length, alphabet strings, random bytes), all at once and byte by byte, through the tokio copy of Request::from_stream in isolated worker processes; same crash / abort / hang / memory oracle");
+            let cases = props::c03::build_cases(&ctx, &[ttargets::T_REQUEST]);
+            props::c03::run_cases(&ctx, cases);
+        }
         "C04" => t04::run(&ctx),
+        "C06" => props::c06::run(&ctx),
         "C20" => t20::run(&ctx),
         _ => {
             eprintln!("no tokio twin for {}", id);
